@@ -260,6 +260,35 @@ def run_case(ctx, rng, job):
                                                            'got': flat(providedBy(u)), 'expected': flat(providedBy(o))})
             names_only(data, modname, ctx, 'instance of ' + cname)
             entries.append(('obj', cname, p, data, flat(providedBy(o))))
+    # pickling x later changes: instance declarations made while the class still implemented an interface, then the
+    # class is narrowed; what unpickles must provide what the live object provides now (in-process only: the second
+    # process imports the module without these run-time changes)
+    from zope.interface import classImplementsOnly
+    for cname in classes:
+        cls = getattr(mod, cname)
+        impl = list(implementedBy(cls))
+        others = [getattr(mod, i) for i in ifs if getattr(mod, i) not in impl and not any(x.extends(getattr(mod, i)) for x in impl)]
+        if not impl or len(others) < 2 or rng.random() < 0.5:
+            continue
+        iflag, iextra, irepl = impl[0], others[0], others[1]
+        o1, o2, o3 = cls(), cls(), cls()
+        directlyProvides(o1, iextra, iflag)       # redundant iflag is stripped while the class implements it
+        directlyProvides(o2, iextra)
+        classImplementsOnly(cls, irepl)
+        directlyProvides(o3, iextra)
+        ctx.op('narrow-after-instance-declarations', cname, nm([iflag, iextra, irepl]))
+        ctx.count('classes_narrowed_after_instance_declarations')
+        for p in protos:
+            for label, o in (('o1', o1), ('o2', o2), ('o3', o3)):
+                for what, x, live in (('provides', o.__provides__, o.__provides__), ('carrier', o, providedBy(o))):
+                    r = rt(x, p)
+                    u = r[0]
+                    got = flat(u) if what == 'provides' else flat(providedBy(u))
+                    ctx.ev()
+                    ctx.count('roundtrips[after-class-narrowing:%s]' % what)
+                    if got != flat(live):
+                        ctx.violation('declaration-differs-after-class-narrowing',
+                                      {'cls': cname, 'object': label, 'what': what, 'proto': p, 'got': got, 'expected': flat(live)})
     _manifest.append((modname, entries))
     ctx.shape(('shapes', tuple(sorted(shapes.values()))), nontrivial=True)
     if ctx.case < 1:
